@@ -134,6 +134,11 @@ def run(ctx):
                             'save reachable without the incomplete flag stored / metadata attached on the path',
                             witness=dom.path_to(node, st) if (node.id, st.key()) in dom.pred else None))
 
+    # ------------------------------------------------------------------ C05.f  the flag means "no operation output captured"
+    from . import c18
+    cfl = res.clause('C05.f', 'R-AGREE', 'incomplete flag = no operation-output entry (so an unflagged recording has its result entry)', floor=2)
+    c18.incomplete_flag_clause(ctx, res, cfl, 'C05', 'C05.f')
+
     # ------------------------------------------------------------------ C05.b/c  capture-or-dead in recording mode
     cc = res.clause('C05.c', 'R-MUSTPASS', 'in recording mode an executed interception is captured or the recording is dead', floor=4)
     base_atoms = recmodel_base_atoms(ctx)
